@@ -5,7 +5,8 @@ Line-protocol driver for the calc-steps kernel (C16).
 * `plan <size> ; <ordered> ; <targets> ; <p>n edges>`
     → `<actions> ; pasted=<final pasted> ; topo=<0|1> ; nodup=<0|1>`
 * `gen <fuel> ; <n:p,p preds> ; <user inputs> ; <targets> ; <pre>`
-    → `calculated=<executions while tracing> ; <held sorted>/<inputs sorted>` (state left behind);
+    → `calculated=<executions while tracing> ; extra=<planned from the graph, sorted> ; <held sorted>/<inputs sorted>`
+    (state left behind);
     the elements of `<pre>` are evaluated, in that order, before `generate_actions` is modelled
 * `exec <fuel> ; <n:p,p preds> ; <actions>`
     → after every action `<held sorted>/<inputs sorted>`, joined by `|`, then ` ; log=<executions>`
@@ -91,7 +92,8 @@ def doExecFrom (fuel : Nat) (preds : List (Nat × List Nat)) (inputs pre : List 
 def doGen (fuel : Nat) (preds : List (Nat × List Nat)) (inputs targets pre : List Nat) : String :=
   let c0 : Cache := startCache fuel (predFn preds) inputs pre
   let c := generateLeaves (predFn preds) fuel targets c0
-  "calculated=" ++ showNodes (calculated (predFn preds) fuel targets c0) ++ " ; "
+  "calculated=" ++ showNodes (calculated (predFn preds) fuel targets c0) ++ " ; extra="
+    ++ showNodes (sortNat (preHeld (predFn preds) fuel targets c0)) ++ " ; "
     ++ showNodes (sortNat c.held) ++ "/" ++ showNodes (sortNat c.inputs)
 
 def step (line : String) : String :=
